@@ -251,4 +251,11 @@ CaseJson ==
      script |-> Script(lay)]
 
 DumpCase == IF Dump /\ pc = "start" THEN PrintT(<<"MBT", ToJson(CaseJson)>>) ELSE TRUE
+
+-----------------------------------------------------------------------------
+(* which known findings does the design as modelled exhibit?  (MC_MxFormula_kf.cfg, one    *)
+(* worker: register 1 collects the KF labels of all reachable states)                      *)
+KFInit    == Init /\ TLCSet(1, {})
+CollectKF == TLCSet(1, TLCGet(1) \cup (labels \cap KFNames))
+PrintKF   == PrintT(<<"KFSEEN", TLCGet(1)>>)
 =============================================================================
